@@ -128,10 +128,11 @@ func (its *TransactionDatatype) BeginTransaction(
 // Rollback is called to rollback a transaction
 func (its *TransactionDatatype) Rollback() errors.OrdaError {
 	its.L().Infof("Begin the rollback: '%s'", its.txCtx.tag)
+	rollbackOps := its.rollbackOps // SetMetaAndSnapshot() moves the rollback point and forgets them
 	if err := its.SetMetaAndSnapshot(its.rollbackMeta, its.rollbackSnapshot); err != nil {
 		return errors.DatatypeTransaction.New(its.L(), "rollback failed")
 	}
-	for _, op := range its.rollbackOps {
+	for _, op := range rollbackOps {
 		if err := its.Replay(op); err != nil {
 			return errors.DatatypeTransaction.New(its.L(), "rollback failed")
 		}
